@@ -288,12 +288,20 @@ func init() {
 						spy.mu.Lock()
 						spyBefore := spy.n
 						spy.mu.Unlock()
+						// failpoint (verif hook of net/udp): the kernel transmit timestamp of the request is not
+						// delivered within the client's poll timeout; the client falls back on a clock reading
+						lateTX := seq%6 == 5 && call%3 == 1
+						if lateTX {
+							udp.VerifLateTXTimestamps(1)
+							r.Class(name + ":kernel transmit timestamp of the request not delivered in time")
+						}
 						tCall := time.Now()
 						ctx, cancel := context.WithTimeout(context.Background(), 120*time.Millisecond)
 						var off time.Duration
 						var err error
 						pnc := c02Recover(func() { _, off, err = measure(ctx, si) })
 						cancel()
+						udp.VerifLateTXTimestamps(0)
 						tRet := time.Now()
 						r.Eval(1)
 						recs := h.take()
